@@ -92,6 +92,23 @@ func (r *FragReader) Read(p []byte) (int, error) {
 	return n, nil
 }
 
+// ByteFragReader is a FragReader that also implements io.ByteReader (as
+// bufio.Reader, bytes.Reader and bytes.Buffer do): code that looks for the
+// interface takes a different path.
+type ByteFragReader struct{ *FragReader }
+
+func (r ByteFragReader) ReadByte() (byte, error) {
+	var b [1]byte
+	n, err := r.FragReader.Read(b[:])
+	if n == 1 {
+		return b[0], nil
+	}
+	if err == nil {
+		err = io.ErrNoProgress
+	}
+	return 0, err
+}
+
 // Sink collects written bytes.
 type Sink struct {
 	Data  []byte
